@@ -28,6 +28,7 @@ def tasks(ctx):
     for fn in ac.chan_funcs(ctx):
         if fn not in ac.TURN_ON_ALLOWED:
             ts.append(ac.never_turns_on_task(fn))
+    ts.append(Task(ac.A + "tickClock", ac.A + "tickClock", overrides=ov, keep=keep_labels({"sequencer", "len2", "len3", "ticks"})))
     ts.append(LemmaTask("lemma:length", ac.length_lemma, ["tickLength (contract-level induction lemma)"]))
     return filter_tasks(ts)
 
